@@ -404,8 +404,10 @@ def explore(fn, *, base=(), max_paths=20000, timeout_ms=10000, stats=None, deadl
         except PathAbort:
             Ctx.cur = None
             continue
-        except Exception as e:  # noqa: BLE001 - an escaped exception is an outcome
-            out = ("exc", e)
+        except (KeyboardInterrupt, SystemExit, MemoryError):
+            raise
+        except BaseException as e:  # noqa: BLE001 - an escaped exception is an outcome (also one that is
+            out = ("exc", e)        # not an Exception: the code under test may define such classes)
         finally:
             Ctx.cur = None
         stats.paths += 1
